@@ -161,3 +161,28 @@ func callSummary(cs []*netsim.Call) string {
 	}
 	return s
 }
+
+// wideIDs replaces the identifiers 1..n by n distinct identifiers drawn over the whole 16-bit range (boundary
+// values such as 0, the byte boundaries and 0xFFFF included), keeping their order: zero values, truncations and
+// sign problems hide at such identifiers, and nothing in the orchestration may depend on identifiers being small.
+func wideIDs(r *prng.Rand, n int) []uint16 {
+	seen := map[uint16]bool{}
+	var ids []uint16
+	for len(ids) < n {
+		var id uint16
+		switch r.Intn(3) {
+		case 0:
+			id = boundaryIDs[r.Intn(len(boundaryIDs))]
+		case 1:
+			id = uint16(r.Intn(65536))
+		default:
+			id = uint16(r.Intn(300))
+		}
+		if !seen[id] {
+			seen[id] = true
+			ids = append(ids, id)
+		}
+	}
+	sort.Slice(ids, func(i, j int) bool { return ids[i] < ids[j] })
+	return ids
+}
